@@ -90,6 +90,8 @@ func errClass(err error) string {
 		return "abi-encoding"
 	case errors.Is(err, attestations.ErrInvalidAttestationData):
 		return "invalid-attestation"
+	case errors.Is(err, attestations.ErrInvalidTimestamp):
+		return "invalid-timestamp"
 	case errors.Is(err, ibcerrors.ErrInvalidType):
 		return "invalid-type"
 	case errors.Is(err, gmptypes.ErrInvalidEncoding):
@@ -755,7 +757,8 @@ func codecMonitor(r *Rng, n int, report func(reg.Violation)) {
 			}
 		})
 	}
-	// the recorded finding witnesses are re-evaluated on every run
+	// regression inputs: the witnesses of the amount-base finding fixed by 6129489 ("010" was validated as 8
+	// and ABI-encoded as 10; "0x10" could not be encoded) must round-trip now
 	checkFtpd(transfertypes.FungibleTokenPacketData{Denom: "uatom", Amount: "010", Sender: "a", Receiver: "b"})
 	checkFtpd(transfertypes.FungibleTokenPacketData{Denom: "uatom", Amount: "0x10", Sender: "a", Receiver: "b"})
 	for i := 0; i < n; i++ {
